@@ -31,6 +31,7 @@ func checkC17(c *Ctx) {
 	ruleLayerOrder(c, dv)
 	ruleNoNarrowTransposition(c, dv)
 	ruleConfiguredColourUnmodified(c, dv)
+	c.importRules(ownControllerRules, []string{"R16.11"}, "R17.13")             // the frame goes to the controller that belongs to this device: not to one handed out to every device that asks
 	c.importRules(noSharedStateRules, []string{"R16.5"}, "R17.12")              // the highlight state belongs to one device object: nothing shared with other devices or earlier attaches
 	c.importRules(transportRules, []string{"R15.1", "R15.2", "R15.3"}, "R17.8") // MIDI-input messages reach every connected device (fan-out ids, delivery loop)
 	c.MinCount("R17.7", 8)
